@@ -61,7 +61,7 @@ def check(run, replay):
         "Coq 8.16.1 kernel (coqc); vm_compute only in Examples / the refutation witness; no native_compute",
         "extraction: Require Extraction + ExtrOcamlBasic only; ocaml/driver.ml (I/O)",
         "harness/vh_common.h + vh_c23.cpp + vh_c24.cpp (logger command: CppCheck::verifLogger().reportErr, verifExitCode)",
-        "PathMatch::match is a parameter `pm` of the theorems; executable instances: equality (harness) and the glob language on separator-free names (end-to-end)",
+        "PathMatch::match is a parameter `pm` of the theorems; the executable model uses C31's pm_model / simplify_path (Path/Defs.v)",
         "modelled, not verified: lib/cppcheck.cpp CppCheckLogger::reportErr (non-safety mode), CppCheck::check (dummy query, per-file resetExitCode/clear), "
         "cli/singleexecutor.cpp / threadexecutor.cpp / processexecutor.cpp result sums (unsigned overflow and a worker dying mid-run are not modelled: C21), "
         "cli/executor.cpp hasToLog, cli/cppcheckexecutor.cpp check_internal (returnValue |= whole-program, unmatchedSuppression contribution, final status)",
